@@ -1353,6 +1353,11 @@ class Data(BaseCartesianData):
                                            for key, value in self._components.items())
             changed = True
 
+            # Derived components that are computed from the old component ID
+            # should now be computed from the new one
+            for cid in self.derived_components:
+                self._components[cid].link.replace_ids(old, new)
+
         try:
             index = self._pixel_component_ids.index(old)
             self._pixel_component_ids[index] = new
